@@ -105,40 +105,27 @@ def failing_source(fault, d):
     if fault is None or not str(fault[0]).startswith('source-'):
         yield
         return
-    real_open = pathlib.Path.open
+    # below the code under test (mc.fsteps): the fault hits however the source file is opened and read
+    from mc.fsteps import FSteps
     target = str(d / 'f1')
+    cnt = {'read': 0}
 
-    class FailingFile:
-        def __init__(self, f):
-            self.f, self.n = f, 0
-
-        def read(self, *a):
-            self.n += 1
-            if self.n == fault[1]:
+    def step(label, path):
+        if path != target:
+            return
+        if label == 'open-r' and fault[0] == 'source-open':
+            raise InjectedOS(13, 'Permission denied (injected)')
+        if label == 'read' and fault[0] == 'source-read':
+            cnt['read'] += 1
+            if cnt['read'] == fault[1]:
                 raise InjectedOS(5, 'Input/output error (injected)')
-            return self.f.read(*a)
 
-        def __enter__(self):
-            return self
-
-        def __exit__(self, *a):
-            self.f.close()
-
-        def __getattr__(self, k):
-            return getattr(self.f, k)
-
-    def patched(self, mode='r', *a, **k):
-        if str(self) == target and 'r' in mode and 'b' in mode:
-            if fault[0] == 'source-open':
-                raise InjectedOS(13, 'Permission denied (injected)')
-            return FailingFile(real_open(self, mode, *a, **k))
-        return real_open(self, mode, *a, **k)
-
-    pathlib.Path.open = patched
+    fs = FSteps(d, step, reads=True, torn=False)
+    fs.install()
     try:
         yield
     finally:
-        pathlib.Path.open = real_open
+        fs.uninstall()
 
 
 def check_manifest(repo, store, res, d, tree):
